@@ -401,18 +401,24 @@ Inductive op := OpD (b : block) (h : Z) | OpR (h : Z) | OpS (h : Z) | OpG (bps :
   | OpF (rh : Z) (h : Z) (kept : Z).
 
 (** The consensus calls chain.addBlock / chain.reorg make for one delivered block, as implied
-    by [deliver]: 1 no = VerifyTimestamp(block no), 2 r = NeedReorganization(root no),
-    3 id = Update(block id), 4 = Save. *)
+    by [deliver], in the order recorded from the real ChainService: 1 no = VerifyTimestamp(block
+    no), 5 id = VerifySign(block), 2 r = NeedReorganization(root no), 6 id best = IsBlockValid(block,
+    best block of the chain DB) immediately before executing the block, 3 id = Update(block),
+    4 = Save.  A block refused by VerifyTimestamp is not looked at further; IsBlockValid is evaluated
+    for a block only when it is about to be executed, i.e. after Update of its predecessor. *)
 Definition deliver_calls (nd : node) (blk : block) : list Z :=
+  let best := k_id (st_best (nd_st nd)) in
   match snd (deliver nd blk) with
-  | ODup | OLeLib | OOrphan | OInvalid | OSide => [1; k_no blk]   (* VerifyTimestamp comes first *)
-  | OConnected => [1; k_no blk; 3; k_id blk; 4]
+  | OLeLib => [1; k_no blk]
+  | ODup => if verify_lib_rule (st_ls (nd_st nd)) blk then [1; k_no blk; 5; k_id blk] else [1; k_no blk]
+  | OOrphan | OInvalid | OSide => [1; k_no blk; 5; k_id blk]
+  | OConnected => [1; k_no blk; 5; k_id blk; 6; k_id blk; best; 3; k_id blk; 4]
   | OVeto | OReorg =>
       match gather (length (blk :: nd_store nd)) (nd_main nd) (blk :: nd_store nd) blk [] with
       | Some (root, nb) =>
-          [1; k_no blk; 2; k_no root] ++
+          [1; k_no blk; 5; k_id blk; 2; k_no root] ++
           (if need_reorganization (st_ls (nd_st nd)) (k_no root)
-           then 3 :: k_id root :: flat_map (fun b => [3; k_id b]) nb ++ [4] else [])
+           then 3 :: k_id root :: flat_map (fun b => [6; k_id b; best; 3; k_id b]) nb ++ [4] else [])
       | None => []
       end
   end.
